@@ -28,7 +28,9 @@ LEVEL = 'exploration'
 RULE = (
     'cases = seeded random choice-model configurations: 2-7 alternatives with arbitrary integer labels, 3-6 base rows '
     '(utilities within a band of 1..30, availability patterns incl. a whole nest unavailable and a single available '
-    'alternative) x up to 7 constants added to all utilities, a nested structure (partition of a subset, others alone), a '
+    'alternative; availability dictionaries in several object-sharing styles: a fresh expression per alternative, one '
+    'Variable / compound object reused by members of a nest and across nests, one Numeric(1) object, plain int / bool, None; '
+    'utilities sharing or not their sub-expression objects) x up to 7 constants added to all utilities, a nested structure (partition of a subset, others alone), a '
     'cross-nested structure (overlapping nests, allocation rows summing to one, optional explicit zeros), nest parameters '
     'and scale in [1,10] given as float / Numeric / fixed or free Beta, three hand-written MEV term sets, ordered '
     'logit/probit with 2-6 categories; plus a fixed list of directed configurations. A case is non-trivial when at least '
@@ -65,11 +67,14 @@ DIRECTED = [
     {'name': 'simulate_entry', 'force': {'J': 4, 'av_mode': 'var', 'entry': 'simulate', 'n_alone': 1}},
     {'name': 'variable_choice', 'force': {'J': 5, 'av_mode': 'mixed', 'choice_mode': 'variable', 'n_alone': 2}},
     {'name': 'large_band', 'force': {'J': 5, 'av_mode': 'var', 'vband': 30.0, 'n_alone': 1}},
-    {'name': 'alpha_zero_dead_nest', 'force': {'labels': [1, 2, 3], 'av_mode': 'var', 'util_form': 'var', 'override': {
+    {'name': 'alpha_zero_dead_nest', 'force': {'labels': [1, 2, 3], 'av_mode': 'var', 'av_share': 'fresh', 'util_form': 'var', 'override': {
         'cnl': [{'param': 2.0, 'kind': 'beta_free', 'alpha': [[1, 0.0], [2, 0.6]]},
                 {'param': 1.5, 'kind': 'beta_free', 'alpha': [[1, 1.0], [2, 0.4], [3, 1.0]]}],
         'mu_cnl': 1.2, 'alpha_kind': 'float',
         'rows': [{'V': [0.5, 0.1, -0.3], 'A': [1, 1, 1]}, {'V': [0.5, 0.1, -0.3], 'A': [1, 0, 1]}, {'V': [-1.0, 2.0, 0.25], 'A': [1, 0, 0]}]}}},
+    {'name': 'nest_members_share_availability_variable', 'force': {'J': 5, 'av_mode': 'var', 'av_share': 'group_var', 'n_alone': 1}},
+    {'name': 'nest_members_share_availability_expression', 'force': {'J': 6, 'av_mode': 'var', 'av_share': 'group_expr', 'n_alone': 0, 'choice_mode': 'variable'}},
+    {'name': 'always_available_share_one_object', 'force': {'J': 5, 'av_mode': 'mixed', 'av_share': 'one_object', 'one_kind': 'numeric', 'n_alone': 1}},
     {'name': 'plain_number_utility', 'force': {'J': 4, 'av_mode': 'var', 'util_form': 'const1', 'n_alone': 1}},
 ]
 
@@ -298,6 +303,8 @@ def run_case(case):
             rec.c('feature_' + k, v if k.startswith('rows_') else 1)
     rec.c('choice_' + cfg['choice_mode'])
     rec.c('availability_' + cfg['av_mode'])
+    rec.c('availability_objects_' + cfg['av_share'])
+    rec.c('utility_objects_' + cfg['util_share'])
     rec.c('utility_form_' + cfg['util_form'])
     rec.sample({'config': cfg, 'nested_P_first_line': {str(a): float(vals[('nested', 'P', 'CH' if variable else a)][0]) for a in alts[:1]}
                 if 'nested' not in broken else None})
@@ -432,7 +439,9 @@ def finalize(cov, tier):
     for k in ('shift_pairs_compared', 'log_values_compared', 'unavailable_probabilities_checked',
               'python_evaluator_distributions', 'entry_simulate', 'entry_get_value_c', 'choice_variable', 'choice_numeric',
               'feature_rows_whole_nest_unavailable', 'feature_nl_alone', 'feature_cnl_overlapping_alts',
-              'feature_cnl_alpha_zero_listed', 'availability_none', 'stress_lines_logit', 'syntax_tuple'):
+              'feature_cnl_alpha_zero_listed', 'availability_none', 'stress_lines_logit', 'syntax_tuple',
+              'feature_same_nest_members_share_availability_object', 'availability_objects_group_var',
+              'availability_objects_group_expr', 'availability_objects_one_object', 'utility_objects_shared'):
         if cov.get(k, 0) == 0:
             out.append(f'monitor / workload feature never observed: {k}')
     return out
